@@ -91,6 +91,8 @@ def run(tier, wd):
             want = 10 + names(c["depth"]).index(c["by"])
             if want == 11:
                 want = 0     # the hook with index 1 exits with status 0
+            elif want == 12:
+                want = 253   # the hook with index 2 exits with status -3
             ok = p.returncode == want and "RETURNED" not in p.stdout
         elif c["fin"] == "panic":
             ok = p.returncode == 99 and ("PANIC " + c["by"]) in p.stdout
